@@ -308,6 +308,10 @@ def input_store(name, shape, kind="real"):
 
     def cell(idx):
         return SReal.mk(f(*[SInt.lift(as_int(i)) for i in idx]))
+    try:
+        cur().ghost.setdefault("input_stores", []).append((name, tuple(shape), f))     # for counterexample replay (core.model_inputs)
+    except Exception:
+        pass
     return Store(shape, cell, name)
 
 
